@@ -248,9 +248,26 @@ mod c_side {
             (api.update)(&mut *par, prefix.as_ptr() as *const c_void, prefix.len());
             (api.update)(&mut *ser, prefix.as_ptr() as *const c_void, prefix.len());
             model.push(prefix);
-            cjoin::install(Some(Script { seed: c.seed, mode: c.mode }));
-            cshim::ct_blake3_hasher_update_tbb(&mut *par, data.as_ptr() as *const c_void, data.len());
-            cjoin::install(None);
+            if c.mode == 4 && cfg!(feature = "full") {
+                // real work stealing: the seam hands every join to rayon inside a pool of 2..=8 threads
+                #[cfg(feature = "full")]
+                {
+                    let p = super::pool(2 + (c.seed % 7) as u8);
+                    let hp = crate::guard::SendAddr(&mut *par as *mut CHasher as usize);
+                    let dp = crate::guard::SendAddr(data.as_ptr() as usize);
+                    let n = data.len();
+                    cjoin::WORK_STEALING.store(true, Ordering::SeqCst);
+                    p.install(move || {
+                        let (hp, dp) = (hp, dp);
+                        cshim::ct_blake3_hasher_update_tbb(hp.0 as *mut CHasher, dp.0 as *const c_void, n)
+                    });
+                    cjoin::WORK_STEALING.store(false, Ordering::SeqCst);
+                }
+            } else {
+                cjoin::install(Some(Script { seed: c.seed, mode: c.mode % 4 }));
+                cshim::ct_blake3_hasher_update_tbb(&mut *par, data.as_ptr() as *const c_void, data.len());
+                cjoin::install(None);
+            }
             (api.update)(&mut *ser, data.as_ptr() as *const c_void, data.len());
             model.push(data);
         }
@@ -277,7 +294,7 @@ mod c_side {
             .tag(true, c.init.tag())
             .tag(c.mode == 1, "schedule=all-right-first")
             .tag(c.mode == 2, "schedule=all-concurrent")
-            .tag(c.mode >= 3, "schedule=mixed-by-path")
+            .tag(c.mode == 3, "schedule=mixed-by-path").tag(c.mode == 4, "schedule=rayon-work-stealing")
             .tag(c.mode == 0, "schedule=all-left-first")
             .tag(splits >= 16, ">=16-splits")
             .tag(c.mask == Level::Portable, "mask=portable")
@@ -293,7 +310,7 @@ mod c_side {
             prop_oneof![3 => gen::len_lattice(max), 2 => (2usize..=64).prop_map(|k| k * 1024 + 1)].prop_map(|l| l as u32),
             gen::content(),
             any::<u64>(),
-            prop_oneof![1 => Just(0u8), 2 => Just(1u8), 2 => Just(2u8), 4 => Just(3u8)],
+            prop_oneof![1 => Just(0u8), 2 => Just(1u8), 2 => Just(2u8), 4 => Just(3u8), 4 => Just(4u8)],
             0u16..=3000,
         )
             .prop_map(|(init, mask, prefix_len, len, content, seed, mode, suffix_len)| CCase { init, mask, prefix_len, len, content, seed, mode, suffix_len })
@@ -325,7 +342,7 @@ pub fn subs() -> Vec<Box<dyn DynSub>> {
     #[cfg(feature = "cshim")]
     v.push(Box::new(PropSub::<c_side::CCase> {
         name: "c-join-seam",
-        rule: "proptest: the C library built with -DBLAKE3_USE_TBB; blake3_hasher_update_tbb runs every blake3_compress_subtree_wide_join_tbb call through a harness-implemented seam (left-first / right-first / two real threads, scripted by (seed, path)) for every initialiser and CPU-feature mask; oracle: same output as blake3_hasher_update on a twin and as the spec, again after a common suffix",
+        rule: "proptest: the C library built with -DBLAKE3_USE_TBB; blake3_hasher_update_tbb runs every blake3_compress_subtree_wide_join_tbb call through a harness-implemented seam (rayon's work-stealing scheduler in pools of 2-8 threads, where a waiting worker runs other pending halves on its own stack, or scripted left-first / right-first / two real threads, scripted by (seed, path)) for every initialiser and CPU-feature mask; oracle: same output as blake3_hasher_update on a twin and as the spec, again after a common suffix",
         cases: (5_000, 80_000),
         strategy: c_side::strategy_c,
         classify: c_side::classify_c,
